@@ -1,4 +1,4 @@
 From Coq Require Import Extraction ExtrOcamlBasic.
 From MakoV Require Import Lib.Str Gen.Unicode Gen.LexerOrder Gen.Parsetree Model.Lexer.
 Extraction Language OCaml.
-Extraction "../ocaml/c01/model.ml" N.of_nat lex tiles has_skip emit_ok emit parse_until.
+Extraction "../ocaml/c01/model.ml" N.of_nat lex tiles emit_ok emit parse_until.
